@@ -960,3 +960,17 @@ def position_from_trade(ctx):
     ctx.check("Position::from(&Trade)", got == want and "Decimal::ZERO" in f.get("fees_exit", ""),
               "a position opened by a fill takes side, price, |quantity| (current AND peak), entry fee (as realised cost) and time from that fill; "
               "no exit fees yet", got={k: v for k, v in got.items() if want[k] != v} or f.get("fees_exit"), key="opened-from-fill")
+
+
+def callable_return(ctx, c):
+    """return term of a callable handed to an adaptor - a closure literal OR a named function item - in one vocabulary: the
+    callable's own arguments are written `$1`, `$2`, .. and captured variables are replaced by the captured values.  None if `c`
+    is neither (so `.map(|x| f(x))` and `.map(named_fn)` with `fn named_fn(x) { f(x) }` read the same)"""
+    if c[0] == "agg" and c[1].startswith("closure:"):
+        cb, _ = mir.closure_body(ctx.facts, c)
+        return mir.in_closure(ctx.facts, c, cb.return_term()) if cb else None
+    if c[0] == "fnitem" and c[1] in ctx.facts.bodies:
+        fb = ctx.ibody(c[1])
+        n = fb.argc
+        return mir.subst_params(fb.return_term(), [("cparam", i + 1) for i in range(n)])
+    return None
